@@ -348,6 +348,46 @@ func main() {
 			}
 			ref := vlib.BuildBody(f.Sec, f.Nonce, f.EC, f.TC, f.Em, f.Seq, f.CL, f.Payload)
 			want := vlib.Digest(ref)
+			// Guardians differ in what their local store already holds: for part of the messages node B holds a
+			// quorum VAA for the same message id from an observation with another timestamp (reorganised block,
+			// a peer's copy) that is still inside the settlement window, or one with a different payload. What B
+			// signs must still be the digest of the message alone.
+			prior := ""
+			if i%4 == 1 || i%4 == 2 {
+				d := int64(1 + rng.Intn(29)) // 30 s plus a sub-second part is already outside the settlement window
+				psec, ppay := int64(f.Sec), f.Payload
+				switch rng.Intn(4) {
+				case 0:
+					prior = "earlier-within-settlement"
+					psec -= d
+				case 1:
+					prior = "later"
+					psec += int64(1 + rng.Intn(100000))
+				case 2:
+					prior = "same-second-other-payload"
+					ppay = append([]byte{0x5a}, f.Payload...)
+				default:
+					prior = "earlier-1s"
+					psec--
+				}
+				if psec < 0 || psec > 0xffffffff {
+					prior = ""
+				} else {
+					pv := &vaa.VAA{Version: 1, GuardianSetIndex: 7, Timestamp: time.Unix(psec, 0), Nonce: f.Nonce ^ 1, Sequence: f.Seq, ConsistencyLevel: f.CL,
+						EmitterChain: vaa.ChainID(f.EC), TargetChain: vaa.ChainID(f.TC), EmitterAddress: vaa.Address(f.Em), Payload: ppay}
+					pd := pv.SigningMsg()
+					for gi, k := range []int{6, 2, 7} {
+						sg := &vaa.Signature{Index: uint8(gi)}
+						copy(sg.Signature[:], vlib.Sign(vlib.Key(k), pd.Bytes()))
+						pv.Signatures = append(pv.Signatures, sg)
+					}
+					if err := nodeB.DB.StoreSignedVAA(pv); err != nil {
+						prior = ""
+					} else {
+						r.Count("processor_prior_store_"+prior, 1)
+					}
+				}
+			}
 			for ni, n := range []*proc.Rig{nodeA, nodeB} {
 				mp := &common.MessagePublication{TxHash: ethcommon.Hash{byte(i)}, Timestamp: time.Unix(int64(f.Sec), int64(f.Nanos)), Nonce: f.Nonce, Sequence: f.Seq,
 					ConsistencyLevel: f.CL, EmitterChain: vaa.ChainID(f.EC), TargetChain: vaa.ChainID(f.TC), EmitterAddress: vaa.Address(f.Em), Payload: f.Payload}
@@ -369,7 +409,11 @@ func main() {
 								found = true
 								r.Count("processor_observations", 1)
 								if !bytes.Equal(o.Obs.Hash, want) {
-									r.Violation("processor:signed-hash!=spec-digest", map[string]interface{}{"node": ni, "fields": f.summary(), "got": vlib.Hex(o.Obs.Hash), "want": vlib.Hex(want)})
+									cls := "processor:signed-hash!=spec-digest"
+									if ni == 1 && prior != "" {
+										cls = "processor:signed-hash-depends-on-local-store:" + prior
+									}
+									r.Violation(cls, map[string]interface{}{"node": ni, "prior_store": prior, "fields": f.summary(), "got": vlib.Hex(o.Obs.Hash), "want": vlib.Hex(want)})
 								}
 								if a, err := vlib.Recover(o.Obs.Hash, o.Obs.Signature); err != nil || a != vlib.Addr(vlib.Key(ni+1)) {
 									r.Violation("processor:observation-not-signed-by-node-key", map[string]interface{}{"node": ni, "fields": f.summary()})
